@@ -66,7 +66,7 @@ impl Scenario for C09S {
         }
     }
     fn rule(&self) -> &'static str {
-        "case = (stream of 1..10 sends of single/multi-packet sizes with/without an attached endpoint; sender as thread or sim-process; receiver fate: dropped after m receives / dropped before any send / its sim-process crashes (optionally at the k-th system call of a receive) / in transit inside a carrier message whose receiver is later dropped / in transit and later unpacked and drained; schedule policy); non-trivial = the receiver vanished or was in transit while at least one send was attempted; distinct = distinct (workload, schedule hash)"
+        "case = (stream of 1..10 sends of single/multi-packet sizes with/without an attached endpoint; sender as thread or sim-process; receiver fate: dropped after m receives / dropped before any send / its sim-process crashes (optionally at the k-th system call of a receive) / in transit inside a carrier message whose receiver is later dropped / in transit and later unpacked and drained; schedule policy); at the end, with every handle dropped, the descriptor table must be back at its baseline; non-trivial = the receiver vanished or was in transit while at least one send was attempted; distinct = distinct (workload, schedule hash)"
     }
     fn gen(&self, seed: u64, idx: u64, _tier: Tier, variant: &str) -> Value {
         let mut r = Rng::stream(seed, idx.wrapping_mul(2654435761).wrapping_add(0xC09));
@@ -102,9 +102,11 @@ impl Scenario for C09S {
         let m = p["recv_first"].as_u64().unwrap_or(0).min(nmsgs);
         let delay = p["delay_us"].as_u64().unwrap_or(0).min(1_000_000) * 1000;
         let (first, _) = frag_sizes();
-        let (tx, rx) = ipc::channel::<M9>().unwrap();
         let (side_tx, side_rx) = ipc::channel::<u8>().unwrap();
         std::mem::forget(side_rx); // the attached endpoints' receiver simply stays alive
+        // (taken after the side channel exists: its descriptors are part of the baseline)
+        let base_fds = super::util::fd_baseline();
+        let (tx, rx) = ipc::channel::<M9>().unwrap();
         let inproc = cfg!(feature = "inproc");
         // ---- receiver side
         match mode.as_str() {
@@ -241,6 +243,15 @@ impl Scenario for C09S {
             let ok: Vec<i64> = sends.iter().filter(|s| s.3).map(|s| s.0).collect();
             if !blocked.iter().any(|b| b.label == "sender") && delivered != ok {
                 out.viol("lost-after-unpack:recv", format!("after unpacking the receiver in transit: sent Ok {:?} but delivered {:?}", ok, delivered));
+            }
+        }
+        // "fails cleanly": once every thread is done and every handle dropped, nothing that a
+        // failed (or successful) send set up for its transfer may remain open
+        if blocked.is_empty() && hist::panics().is_empty() {
+            let extra = super::util::fds_beyond(&base_fds);
+            if !extra.is_empty() {
+                let failed = sends.iter().filter(|s| s.2.is_some() && !s.3).count();
+                out.viol("descriptor-leak:end", format!("{} descriptor(s) remain open after every handle was dropped ({} of {} sends failed): {}", extra.len(), failed, sends.len(), extra.join(", ")));
             }
         }
         if sim::SIGPIPES.load(std::sync::atomic::Ordering::SeqCst) > 0 {
